@@ -15,7 +15,7 @@ TRUSTED_BASE = [
 ASSUMPTIONS = ["the FragmentBuffer backing store is modelled lazily (map fragment index -> bytes, zero elsewhere); its `unsafe` re-boxing is C19's subject"]
 RULE = ("(a) size sweep: every payload length in [k*1448-2, k*1448+2] for k<=6 plus 0,1,2 and random lengths up to 64 kB, Reliable, over networks that drop, duplicate, "
         "reorder and delay fragments, with small credits cutting packets across flushes; (b) mixed lossy two-endpoint scenarios; (c) forged-header fragments injected "
-        "for in-progress packets; (d) implementation only: one packet of 65535*1448-1 .. MAX_PACKET_SIZE bytes over an ideal link. Non-trivial: at least one multi-fragment packet was delivered. Distinct by (sizes bucket, window sizes, fates).")
+        "for in-progress packets; (d) implementation only: one packet of 65535*1448-1 .. MAX_PACKET_SIZE bytes over an ideal link. Non-trivial: at least one multi-fragment packet was delivered. Distinct by (sizes bucket, window sizes, fates). (e) the short last fragment re-sent into a still incomplete packet two or more times (earlier fragments and all acks lost for 2.5-6 s).")
 
 def streams(rng, tier, ctx):
     n = 16 if tier == "quick" else 300
